@@ -17,11 +17,16 @@ def norm(out):
 class CallModel(e2.Model):
     """Operations: call(c) for c in sigma.  Oracle: outcome == outcome on a brand-new function."""
 
-    def __init__(self, classes, mspecs, sigma, annotate=gen.annotate_static):
+    introspect = False
+
+    def __init__(self, classes, mspecs, sigma, annotate=gen.annotate_static, introspect=False):
         self.classes = classes
         self.mspecs = mspecs
         self.sigma = sigma  # list of (args tuple, kwargs dict) of real values
         self.annotate = annotate
+        # also: the public introspection operations display_resolution(args) / resolve(args) as history steps
+        # (they rank / resolve without calling anything and must be just as invisible)
+        self.introspect = introspect
         self.baseline = {}
         for i in range(len(sigma)):
             p = self.fresh()
@@ -32,15 +37,38 @@ class CallModel(e2.Model):
         return gen.Program(self.classes, self.mspecs, annotate=self.annotate)
 
     def ops(self, hist):
-        return range(len(self.sigma))
+        out = list(range(len(self.sigma)))
+        if self.introspect:
+            out += [(kind, c) for kind in ("show", "resolve") for c in range(len(self.sigma))]
+        return out
+
+    def _introspect(self, p, op):
+        import contextlib
+        import io
+
+        args, kwargs = self.sigma[op[1]]
+        try:
+            with contextlib.redirect_stdout(io.StringIO()):
+                if op[0] == "show":
+                    p.ov.display_resolution(*args, **kwargs)
+                else:
+                    p.ov.resolve(*args)
+        except Exception:  # noqa  (no method / ambiguity are answers of these operations too)
+            pass
+        return ("introspection",)
 
     def build(self, hist):
         p = self.fresh()
         for op in hist:
-            p.call(*self.sigma[op])
+            if isinstance(op, tuple):
+                self._introspect(p, op)
+            else:
+                p.call(*self.sigma[op])
         return p
 
     def apply(self, p, op):
+        if isinstance(op, tuple):
+            return self._introspect(p, op)
         return norm(p.call(*self.sigma[op]))
 
     def canon(self, p, hist):
@@ -51,6 +79,8 @@ class CallModel(e2.Model):
         return tuple(sorted(set(hist)))  # which tuples were warmed; sound but coarser merging never happens
 
     def check(self, hist, op, out, obj):
+        if isinstance(op, tuple):
+            return
         if out != self.baseline[op]:
             yield (f"history-dependent:{self.baseline[op][0]}->{out[0]}",
                    {"first_call_ever": self.baseline[op], "after_history": out})
@@ -73,6 +103,18 @@ def static_family(tier):
         yield from _fam("S2:2pos,n<=2,L=2,prio", H(1, 2), ["xy"], (0, 1), 2, 2, ("plain", "cn"), 4)
         yield from _fam("S2b:2pos,n<=2,L=3", H(1, 2), ["xy"], (0,), 3, 3, ("plain", "cn"), 3)
         yield from _fam("S3:2pos,n=3,L=2", H(3, 3), ["xy"], (0,), 2, 2, ("plain", "cn"), 2)
+
+
+def introspection_family(tier):
+    """Three methods over a 2-class hierarchy, one of them delegating with call_next(<a fixed other value>); the history
+    alphabet also has display_resolution / resolve.  -> (space, hier, descs, (j, value name), depth)"""
+    H = [Hierarchy.get(a) for a in posets(2)] + ([Hierarchy.get(a) for a in posets(3)] if tier != "quick" else [])
+    for h in H:
+        ds = spaces.descriptors(h.type_names, ["x"], (0,) if tier == "quick" else (0, 1))
+        for descs in spaces.multisets(ds, 3, 3, distinct=True):
+            for j in range(3):
+                for vn in h.type_names:
+                    yield "s1i:1pos,n=2,L=3,one call_next(other value),introspection ops", h, descs, (j, vn), 3
 
 
 def _fam(name, hiers, shapes, prios, lo, hi, variants, depth):
@@ -135,14 +177,27 @@ def shard(shard, nshards, tier, seed):
         k += 1
         if k % 50 == 0:
             gen.purge_globals()
+    for space, h, descs, (j, vn), depth in introspection_family(tier):
+        idx += 1
+        if idx % nshards != shard:
+            continue
+        mspecs = spaces.mspecs_of(descs, body=["cnv" if i == j else "plain" for i in range(len(descs))])
+        mspecs[j]["env"] = {"__v": h.instances[vn]}
+        sig_names = [(a,) for a in h.type_names]
+        sigma = [((h.instances[a],), {}) for a in h.type_names]
+        run_program(acc, space, h.spec(), dict(h.classes), mspecs, sig_names, sigma, depth, "cnv", introspect=True, cnv=(j, vn))
+        k += 1
+        if k % 50 == 0:
+            gen.purge_globals()
     from . import c04_dep
 
     c04_dep.shard_into(acc, shard, nshards, tier, idx)
     return acc
 
 
-def run_program(acc, space, hier_spec, classes, mspecs, sig_names, sigma, depth, variant, annotate=gen.annotate_static, cap=None):
-    model = CallModel(classes, mspecs, sigma, annotate)
+def run_program(acc, space, hier_spec, classes, mspecs, sig_names, sigma, depth, variant, annotate=gen.annotate_static, cap=None,
+                introspect=False, cnv=None):
+    model = CallModel(classes, mspecs, sigma, annotate, introspect=introspect)
     d = depth if depth is not None else len(sigma)
     if variant == "walker":
         d = min(d, 3)
@@ -150,8 +205,10 @@ def run_program(acc, space, hier_spec, classes, mspecs, sig_names, sigma, depth,
         d = max(2, depth - 1)
 
     def on_violation(hist, op, disc, detail):
-        case = {"space": space, "hier": hier_spec, "methods": mspecs, "variant": variant, "sigma": [list(s) for s in sig_names],
-                "history": list(hist), "op": op}
+        case = {"space": space, "hier": hier_spec, "methods": [{k: v for k, v in m.items() if k != "env"} for m in mspecs], "variant": variant,
+                "sigma": [list(s) for s in sig_names], "history": [list(o) if isinstance(o, tuple) else o for o in hist], "op": op}
+        if cnv is not None:
+            case["cnv"] = list(cnv)
         acc.violation(case, disc, {"first_call_ever": list(detail["first_call_ever"][:2]), "after_history": list(detail["after_history"][:2])})
 
     st = e2.bfs(model, d, acc, max_states=cap, on_violation=on_violation, merge_every=MERGE_EVERY[0])
@@ -186,10 +243,13 @@ def replay(case):
         for nm in names:
             vals.append(_parse_val(nm, h))
         sigma.append((tuple(vals), {}))
-    model = CallModel(classes, mspecs, sigma)
-    p = model.build(tuple(case["history"]))
+    if case.get("cnv"):
+        mspecs[case["cnv"][0]]["env"] = {"__v": h.instances[case["cnv"][1]]}
+    model = CallModel(classes, mspecs, sigma, introspect=bool(case.get("cnv")))
+    hist = tuple(tuple(o) if isinstance(o, list) else o for o in case["history"])
+    p = model.build(hist)
     out = model.apply(p, case["op"])
-    return list(model.check(tuple(case["history"]), case["op"], out, p))
+    return list(model.check(hist, case["op"], out, p))
 
 
 def _parse_val(nm, h):
@@ -217,7 +277,8 @@ def main(tier):
         PROP, tier, "model_checking", merged, t0,
         rule="explicit-state BFS over call histories on the real function: per program (static, fully delegating with "
              "call_next / f.next, a list walker using recurse, Literal / Dependent methods) the operations are call(c) for "
-             "every c in the program's argument corpus, including failing ones; states = canonical snapshot of the library's "
+             "every c in the program's argument corpus, including failing ones (one family - three methods, one delegating with call_next on "
+             "another value - also has the introspection operations display_resolution(c) / resolve(c) as history steps); states = canonical snapshot of the library's "
              "own cache tables; closure where the corpus is small, else the stated depth; oracle: every transition's outcome "
              "(kind, trace of entered bodies incl. nested recurse / call_next, result) equals the first-call-ever outcome on "
              "a brand-new function; non-trivial = states of programs with >= 2 distinct outcomes",
